@@ -53,9 +53,9 @@ IsArrangementOf(out, free) == Len(out) = Len(free) /\ ToSetOf(out) = ToSetOf(fre
 Coef(o, x) == FoldLeftDomain(LAMBDA acc, a : IF o.labels[a] = x THEN acc + Stride(o.shape, a) ELSE acc, 0, o.labels)
 OffsetTable(o, labs, exts) ==
     LET cf == TLCEval([k \in 1..Len(labs) |-> Coef(o, labs[k])])
-    IN TLCEval([q \in 1..Prod(exts) |->
-           LET mi == Unflat(exts, q - 1)
-           IN FoldLeftDomain(LAMBDA acc, k : acc + cf[k] * mi[k], 0, labs)])
+        st == TLCEval([k \in 1..Len(labs) |-> Stride(exts, k)])           \* row-major strides of the multi-index itself
+    IN TLCEval([q \in 1..Prod(exts) |->                                   \* digit k of q-1 is ((q-1) div st[k]) mod exts[k]
+           FoldLeftDomain(LAMBDA acc, k : acc + cf[k] * (((q - 1) \div st[k]) % exts[k]), 0, labs)])
 
 Unit(cx) == IF cx THEN <<1, 0>> ELSE 1
 
